@@ -23,6 +23,8 @@ class Ref:
     def __init__(self, ctx, label="ref"):
         self.ctx = ctx
         self.label = label
+        self.lenient_unbind = False
+        self.saw_constructed_unbind = False
 
     # ------------------------------------------------------------------ plumbing
     def need(self, cond, why):
@@ -166,7 +168,10 @@ class Ref:
         if num not in ops:
             raise RefError(f"protocolOp [APPLICATION {num}] not one of the nine supported operations")
         if num == 2:
-            self.need(k == 0, "UnbindRequest: [APPLICATION 2] NULL must be primitive")
+            if self.lenient_unbind and k == 1:
+                self.saw_constructed_unbind = True
+            else:
+                self.need(k == 0, "UnbindRequest: [APPLICATION 2] NULL must be primitive")
         else:
             self.need(k == 1, "protocolOp: SEQUENCE types must be constructed")
         op = ops[num](data, cs, ce)
